@@ -24,6 +24,7 @@ ANCHORED = ['bezier_radialrange', 'Line.radialrange', 'Path.radialrange', 'close
 RULE = ('cases = one Bezier segment or Bezier path with a query point z: far away (100x size), near the curve (1e-3..1e-9 from it), '
         'on the curve, at a centre of curvature of a circle-like cubic (clustered critical points), beyond either end; segments '
         'generic / collinear / looped; distinct by spec + z; non-trivial if an oracle verdict was reached')
+RULE += '; re-query after control-point assignment and after edits through the Path interface'
 ASSUMPTIONS = ['vt/ref/exact.py (Sturm isolation, exact evaluation) is right',
                'optimality is demanded to 1e-9 of the curve size plus the rounding of |B(t) - z| itself']
 TIERS = {
